@@ -15,6 +15,31 @@ theorem depthGS_pos (st : Stmt) : 1 ≤ Frag.depthGS st := by
       | none => simp [Frag.depthGS]
       | some d => cases d <;> simp [Frag.depthGS]
   case ret sp oe => cases oe <;> simp [Frag.depthGS]
+  case forS sp name vty iter body =>
+    obtain ⟨bsp, bty, stmts, boe⟩ := body
+    cases iter <;> simp [Frag.depthGS]
+
+theorem levelNames_ghost (T : List String) (c : List (String × String)) (x m : String) (hx : x ∉ T) :
+    levelNames T ((x, m) :: c.filter (·.1 != x)) = levelNames T c := by
+  have hc : T.contains x = false := by simpa using hx
+  unfold levelNames
+  simp only [List.filter_cons, hc, Bool.false_eq_true, if_false, List.filter_filter]
+  congr 1
+  apply List.filter_congr
+  intro p _
+  by_cases hp : p.1 = x
+  · rw [hp]; simp [hx]
+  · have : (p.1 != x) = true := by simpa using hp
+    simp [this]
+
+theorem freshVar_scopes_tail (mod : String) (env : CEnv) (x : String) :
+    (freshVar mod env x).2.scopes.tail = env.scopes.tail := by
+  unfold freshVar
+  cases env.scopes <;> rfl
+
+theorem freshVar_vm_mono (mod : String) (env : CEnv) (x k : String) : cnt env.vm k ≤ cnt (freshVar mod env x).2.vm k := by
+  rw [cnt_freshVar]
+  split <;> (try subst_vars) <;> omega
 
 /-- A property of the environment that every arm block preserves is preserved by the arms. -/
 theorem cgArmsS_env (mod fn : String) (φ : String → Option String) (loops : List (String × String)) (sp : Span)
@@ -61,7 +86,15 @@ theorem cgS_scopes_tail (mod fn : String) (φ : String → Option String) : ∀ 
     refine ⟨?_, ?_, ?_⟩
     · intro loops st env hd
       cases st
-      case typedef | trigger | forS => rfl
+      case typedef | trigger => rfl
+      case forS sp name vty iter body =>
+        obtain ⟨bsp, bty, stmts, boe⟩ := body
+        cases iter <;> try rfl
+        cases boe <;> try rfl
+        simp only [Frag.depthGS] at hd
+        simp only [cgS]
+        rw [ihSs _ stmts _ (by omega), freshVar_scopes_tail, freshVar_scopes_tail]
+        rfl
       case brk sp => simp only [cgS]
       case cont sp => simp only [cgS]
       case ret sp oe => cases oe <;> rfl
@@ -172,7 +205,16 @@ theorem cgS_vm_mono (mod fn : String) (φ : String → Option String) : ∀ (n :
     refine ⟨?_, ?_, ?_⟩
     · intro loops st env hd k
       cases st
-      case typedef | trigger | forS => exact Nat.le_refl _
+      case typedef | trigger => exact Nat.le_refl _
+      case forS sp name vty iter body =>
+        obtain ⟨bsp, bty, stmts, boe⟩ := body
+        cases iter <;> try exact Nat.le_refl _
+        cases boe <;> try exact Nat.le_refl _
+        simp only [Frag.depthGS] at hd
+        simp only [cgS]
+        refine Nat.le_trans ?_ (ihSs _ stmts _ (by omega) k)
+        refine Nat.le_trans ?_ (freshVar_vm_mono mod _ _ k)
+        exact freshVar_vm_mono mod _ _ k
       case brk sp => simp only [cgS]; exact Nat.le_refl _
       case cont sp => simp only [cgS]; exact Nat.le_refl _
       case ret sp oe => cases oe <;> exact Nat.le_refl _
